@@ -36,7 +36,7 @@ func (c14) Plan(tier string) fw.Plan {
 		MinEvents:   []string{"graphs", "visits_resolved", "positions_enumerated", "error_paths_checked", "string_roundtrips", "kept_paths_rechecked", "resolutions_through_links"},
 	}
 	if tier == "thorough" {
-		p.Batches, p.Cases, p.TimeoutSec = 64, 4000, 3300
+		p.Batches, p.Cases, p.TimeoutSec = 64, 2000, 3300
 	}
 	return p
 }
